@@ -15,10 +15,22 @@ LEVEL = 'exploration'
 
 TOL_CLOSED = 1e-8
 TOL_NUM = 1e-5
+# solvers with relative stopping criteria close to machine precision (worst observed over all phases and scales is 100x smaller)
+TOL_NUM_BY_MODEL = {'TSLangmuir': 1e-10, 'JensenSeaton': 1e-10, 'Virial': 1e-8, 'TemkinApprox': 1e-6}
+
+
+# models whose lattice scale factor is a pure rescaling of the pressure axis
+AXIS_SCALED_MODELS = ('Henry', 'Langmuir', 'DSLangmuir', 'TSLangmuir', 'TemkinApprox', 'Toth', 'JensenSeaton', 'Virial', 'FHVST', 'WVST')
+AXIS_SCALES = (1e-6, 2e7)
+# the property exempts the numerical inverses of these models where the library reports failure; every other inverse must return
+MAY_GIVE_UP = ('Virial', 'FHVST', 'WVST')
+AXIS_SCALES_THOROUGH = (1e-9, 1e-6, 1e-3, 1e3, 2e7, 1e10)
 
 
 def tol_for(name, fn):
     """Tolerance for an inverse identity: closed form vs numerical inverse (optimizer stopping tolerances)."""
+    if name in TOL_NUM_BY_MODEL:
+        return TOL_NUM_BY_MODEL[name]
     if name in ml.NUMERIC_INVERSE:
         return TOL_NUM
     if name in ('BET', 'GAB', 'DSLangmuir', 'Quadratic'):
@@ -178,7 +190,7 @@ def work(arg):
         oi = core.call(inv, y)
         out['ev'] += 1
         if not oi.ok:
-            if core.is_pg(oi.kind) and name in ml.NUMERIC_INVERSE:
+            if core.is_pg(oi.kind) and name in MAY_GIVE_UP:
                 out['noreturn'] += 1
                 continue
             if name in ml.NUMERIC_INVERSE and explicit == 'pressure':
@@ -190,10 +202,7 @@ def work(arg):
         if ia.shape != xa.shape:
             v('shape', f'{inv_name}({kind}) returned shape {ia.shape} for input shape {xa.shape}', None, None, {'fn': inv_name, 'shape': kind})
             continue
-        if name == 'Virial':
-            bad = numpy.abs(ia - xa) > 5e-4 + 1e-4 * numpy.abs(xa)   # Nelder-Mead xatol = 1e-4 (absolute)
-            e = float(numpy.max(numpy.abs(ia - xa)))
-        else:
+        if True:
             with numpy.errstate(divide='ignore', invalid='ignore'):
                 rel = numpy.where(xa != 0, numpy.abs(ia - xa) / numpy.abs(xa), numpy.abs(ia))
             # conditioning close to saturation: d p / d n ~ 1/(1-theta)^2
@@ -203,8 +212,6 @@ def work(arg):
         if bad.any():
             i = int(numpy.argmax(bad))
             extra = {'fn': inv_name, 'shape': kind if kind.startswith('1-d') else 'scalar'}
-            if name == 'Virial' and xa[bad].max() < 0.05:
-                extra['region'] = 'loading below 0.05 (scale of the optimiser\'s absolute tolerances)'
             v('inverse-identity', f'{inv_name}({fwd_name}(x)) != x for {kind}: x={xa[i]:.9g} -> {ia[i]:.9g} (deviation {e:.3g})', xa, ia, extra)
         else:
             out['nt'] += 1
@@ -229,7 +236,7 @@ def work(arg):
         out['nt'] += 1
         arr_ = core.call(m.pressure, numpy.array([ns, 0.9 * ns]))
         if not (pv_ > 0) or not back.ok or abs(float(numpy.asarray(back.value).reshape(-1)[0]) - ns) > 1e-6 * ns or \
-                (arr_.ok and abs(float(numpy.asarray(arr_.value).reshape(-1)[0]) - pv_) > 1e-9 * abs(pv_) + 1e-300):
+                (arr_.ok and abs(float(numpy.asarray(arr_.value).reshape(-1)[0]) - pv_) > (tol_for(name, 'pressure') if name in ml.NUMERIC_INVERSE else 1e-9) * abs(pv_) + 1e-300):
             v('structural-point', f'pressure({ns!r}) = {pv_!r} (loading back: {back.value if back.ok else back.brief()}; in an array: {arr_.value if arr_.ok else arr_.brief()}) '
               f'at a structural point of the inverse formula', ns, pv_, {'fn': 'pressure'})
     for fn_name, fn, top in (('loading', m.loading, p_top_), ('pressure', m.pressure, n_top_)):
@@ -242,19 +249,64 @@ def work(arg):
             o_long = core.call(fn, xs_long)
             out['ev'] += 1
             if not o_long.ok:
-                if name in ml.NUMERIC_INVERSE and fn_name != explicit:
+                if name in MAY_GIVE_UP and fn_name != explicit:
                     out['noreturn'] += 1
                     continue
                 v('long-array', f'{fn_name}(array of {npts} values) {o_long.brief()}', None, o_long.brief(), {'fn': fn_name, 'kind': o_long.kind})
                 continue
             got_ = numpy.asarray(o_long.value, dtype=float).reshape(-1)
             idx_ = [0, 1, npts // 2, 199, 200, npts - 2, npts - 1]
-            ref_ = numpy.array([float(numpy.asarray(fn(float(xs_long[i]))).reshape(-1)[0]) for i in idx_])
+            one_by_one = [core.call(fn, float(xs_long[i])) for i in idx_]
+            if not all(r.ok for r in one_by_one):
+                bad_ = [r for r in one_by_one if not r.ok][0]
+                if name in MAY_GIVE_UP and fn_name != explicit and core.is_pg(bad_.kind):
+                    out['noreturn'] += 1        # the numerical inverse gives up openly for a single value
+                    continue
+                v('long-array', f'{fn_name}(single value) {bad_.brief()} although the array call returns', None, bad_.brief(), {'fn': fn_name, 'kind': bad_.kind})
+                continue
+            ref_ = numpy.array([float(numpy.asarray(r.value).reshape(-1)[0]) for r in one_by_one])
             out['nt'] += 1
-            tol_ = TOL_NUM if (name in ml.NUMERIC_INVERSE and fn_name != explicit) else 1e-10
+            tol_ = max(tol_for(name, fn_name), 1e-10) if (name in ml.NUMERIC_INVERSE and fn_name != explicit) else 1e-10
             if got_.shape != (npts,) or core.relerr(got_[idx_], ref_) > tol_:
                 v('long-array', f'{fn_name}(array of {npts} values): entries {idx_} are {got_[idx_] if got_.shape == (npts,) else got_.shape} but evaluated one by one they are {ref_}',
                   ref_, got_[idx_] if got_.shape == (npts,) else None, {'fn': fn_name})
+    # ---- the declared ranges (the interval a model was fitted on) describe the model; they do not take part in its equations:
+    # a twin carrying finite ranges must return what the bare model returns, inside and outside those ranges
+    p_top_r, n_top_r = both_ranges(m, name, params)
+    if p_top_r > 0 and n_top_r > 0:
+        placements = {'whole range': (0.0, 0.9), 'upper part': (0.45, 0.9), 'low part': (0.001, 0.05)}
+        for pl_name, (f_lo, f_hi) in placements.items():
+            twin = ml.mk(name, params, T)
+            try:
+                if explicit == 'loading':
+                    pr = (f_lo * p_top_r, f_hi * p_top_r)
+                    lr = tuple(float(numpy.asarray(m.loading(q)).reshape(-1)[0]) for q in pr)
+                else:
+                    lr = (f_lo * n_top_r, f_hi * n_top_r)
+                    pr = tuple(float(numpy.asarray(m.pressure(q)).reshape(-1)[0]) for q in lr)
+            except Exception:
+                continue
+            twin.pressure_range, twin.loading_range = pr, lr
+            for fn_name, top in (('loading', p_top_r), ('pressure', n_top_r)):
+                pts = [f * top for f in (0.002, 0.03, 0.2, 0.5, 0.85)]
+                for shape_name, x in (('float', pts[2]), ('0-d', numpy.array(pts[1])), ('1-d', numpy.array(pts))):
+                    if name in ('Virial', 'FHVST', 'WVST') and fn_name == 'loading' and shape_name == '1-d':
+                        continue
+                    bare = core.call(getattr(m, fn_name), x)
+                    got = core.call(getattr(twin, fn_name), x)
+                    out['ev'] += 1
+                    if not bare.ok:
+                        continue
+                    numeric = name in ml.NUMERIC_INVERSE and fn_name != explicit
+                    b1 = numpy.atleast_1d(numpy.asarray(bare.value, dtype=float)).reshape(-1)
+                    g1 = numpy.atleast_1d(numpy.asarray(got.value, dtype=float)).reshape(-1) if got.ok else None
+                    if g1 is None or g1.shape != b1.shape or core.relerr(g1, b1) > (tol_for(name, fn_name) if numeric else 1e-12):
+                        v('depends-on-declared-range',
+                          f'{fn_name}({shape_name} {x!r}) of a model declaring pressure_range={pr}, loading_range={lr} ({pl_name}) '
+                          f'{"= " + str(g1) if g1 is not None else got.brief()} but the same model without declared ranges gives {b1}',
+                          b1, g1 if g1 is not None else got.brief(), {'fn': fn_name})
+                    else:
+                        out['nt'] += 1
     # ---- integer-typed inputs (both directions): the value, not the literal type, decides
     p_top, n_top = both_ranges(m, name, params)
     for fn_name, fn, top in (('loading', m.loading, p_top), ('pressure', m.pressure, n_top)):
@@ -274,7 +326,7 @@ def work(arg):
             if not same_shape_float.ok:
                 continue        # this container shape is not supported for floats either (judged by the shape clauses above)
             if not o.ok:
-                if numeric and core.is_pg(o.kind):
+                if numeric and name in MAY_GIVE_UP and core.is_pg(o.kind):
                     out['noreturn'] += 1
                     continue
                 v('integer-input', f'{fn_name}({kind} {x!r}) {o.brief()} although {fn_name}({float(ints[sel[0]])}) returns', ref[sel], o.brief(),
@@ -284,10 +336,7 @@ def work(arg):
             if got.shape != (len(sel),):
                 v('integer-input', f'{fn_name}({kind}) returned shape {numpy.shape(o.value)}', None, None, {'fn': fn_name, 'shape': kind})
                 continue
-            if name == 'Virial' and fn_name == 'loading':
-                bad = numpy.abs(got - ref[sel]).max() > 5e-4 + 1e-4 * numpy.abs(ref[sel]).max()
-            else:
-                bad = core.relerr(got, ref[sel]) > (TOL_NUM if numeric else 1e-11)
+            bad = core.relerr(got, ref[sel]) > (tol_for(name, fn_name) if numeric else 1e-11)
             if bad:
                 v('integer-input', f'{fn_name}({kind} {x!r}) = {got} but the same values as floats give {ref[sel]}', ref[sel], got,
                   {'fn': fn_name, 'shape': kind})
@@ -325,7 +374,7 @@ def work(arg):
                 g1 = numpy.atleast_1d(numpy.asarray(got.value, dtype=float)).reshape(-1)
                 w1 = numpy.atleast_1d(numpy.asarray(want.value, dtype=float)).reshape(-1)
                 f1 = numpy.atleast_1d(numpy.asarray(first.value, dtype=float)).reshape(-1)
-                if g1.shape != w1.shape or core.relerr(g1, w1) > (TOL_NUM * 10 if numeric else 1e-11):
+                if g1.shape != w1.shape or core.relerr(g1, w1) > (tol_for(name, fn_name) * 10 if numeric else 1e-11):
                     stale = g1.shape == f1.shape and core.relerr(g1, f1) < 1e-12
                     v('stale-after-parameter-change',
                       f'{fn_name}({shape_name} {xx}) after {how} ({key}: {params[key]} -> {new[key]}) = {g1} but a fresh model with the new parameters gives {w1}'
@@ -416,9 +465,21 @@ def _work_modeliso(arg):
 def run(ctx):
     lat = ml.lattice(ctx.scale)
     jobs = []
-    for name, plist in lat.items():
-        for p in plist:
-            jobs.append((name, p, 77.355))
+    # quick: the lattice of this run's phase; thorough: the lattices of all phases
+    scales = [ctx.scale] if ctx.quick else sorted(set(core.PHASES) | {ctx.scale})
+    axis_scales = AXIS_SCALES if ctx.quick else AXIS_SCALES_THOROUGH
+    for sc0 in scales:
+        for name, plist in ml.lattice(sc0).items():
+            for p in plist:
+                jobs.append((name, p, 77.355))
+    # the magnitude of the pressure axis (Pa ... relative pressure of a micropore filling): the same curves with the affinity
+    # parameters rescaled by many orders of magnitude; every identity is scale-free
+    for sc0 in scales:
+        for sc in axis_scales:
+            for name, plist in ml.lattice(sc0 * sc).items():
+                if name in AXIS_SCALED_MODELS:
+                    for p in plist:
+                        jobs.append((name, p, 77.355))
     res = core.pmap(work, jobs, chunk=4)
     noreturn = 0
     for r in res:
@@ -441,5 +502,5 @@ def run(ctx):
     ctx.sample({'model': 'BET', 'params': lat['BET'][5], 'zero_point': 'pressure(0.0) must be 0'})
     ctx.sample({'model': 'FHVST', 'params': lat['FHVST'][1], 'identity': 'loading(pressure(n)) = n where the library reports success'})
     ctx.assumptions += ['numerical inverses (TSLangmuir, TemkinApprox, Jensen-Seaton pressure; Virial, FH-VST, W-VST loading) judged only where the library returns; failures are counted',
-                        'tolerances: closed form 1e-8 (x100 for Toth/DR/DA/Freundlich near saturation), numerical 1e-5, Virial absolute 5e-4 (Nelder-Mead xatol)',
+                        'tolerances: closed form 1e-8 (x100 for Toth/DR/DA/Freundlich near saturation), numerical 1e-5',
                         'lattice phase scales the affinity-type parameters']
